@@ -6,6 +6,7 @@ CONSTANTS
   ServerName = "localhost"
   ServerPort = 70
   HiCode = "FF"
+  Fixes = {}
 CONSTRAINT Record
 POSTCONDITION Post
 CHECK_DEADLOCK FALSE
